@@ -1,0 +1,15 @@
+//go:build verif
+
+// Contracts checked by /verif/govc (comment-only; compiled only with -tags verif).
+package sha3
+
+// Sponge padding pad10*1 with the domain-separation byte (FIPS 202, 5.1 / B.2) for the fixed-length Sum: the message,
+// then between one and rate bytes so that the total is a multiple of the rate. Written from the standard.
+//@ contract (*digest).padding
+//@   props C15
+//@   requires d != nil && d.rate >= 3 && d.rate <= 200 && len(d.in) < 1152921504606846976
+//@   nopanic
+//@   assigns
+//@   ensures @rate-multiple len(result) % d.rate == 0
+//@   ensures @minimal len(result) > len(d.in) && len(result) <= len(d.in) + d.rate
+//@   ensures @message fresh(result) && forall k int :: 0 <= k && k < len(d.in) ==> result[k] == d.in[k]
